@@ -49,6 +49,10 @@ pub use crate::rule::{Latency, Rule, RuleGuard, RuleId, Verdict};
 
 thread_local! {
     static CURRENT: RefCell<Option<Net>> = const { RefCell::new(None) };
+    /// Number of `Net`s built on this thread so far. Rule ids carry it
+    /// in their upper half, so a `RuleGuard` that outlives its `Net`
+    /// can never name a rule of a later `Net` on the same thread.
+    static NET_GENERATION: std::cell::Cell<u64> = const { std::cell::Cell::new(0) };
 }
 
 pub struct Net {
@@ -72,7 +76,11 @@ impl Net {
             dns: Dns::new(),
             current: None,
             rules: IndexMap::new(),
-            next_rule_id: 1,
+            next_rule_id: NET_GENERATION.with(|g| {
+                let generation = g.get();
+                g.set(generation + 1);
+                (generation << 32) + 1
+            }),
         }
     }
 
